@@ -240,6 +240,32 @@ def run(ctx):
                 if o[0] != "ok" or o[1] != want_all[i:i + n] or any(x.tzinfo is not zone for x in o[1]):
                     ctx.violation(what="regular get_timestamps across a change of the UTC offset", start=str(start), interval=str(step), offset=str(off), i=i, n=n,
                                   observed=(show(o)[:160] if o[0] != "ok" else str([str(x) for x in o[1]])[:300]), required=str([str(x) for x in want_all[i:i + n]])[:300])
+    # the same instant written in several zones (equal and of equal hash as datetimes), each in its own Timing, queried one after the
+    # other in this one process: every Timing answers from ITS OWN timestamp - the zone it shows, and for a zone with a varying offset
+    # the instants themselves, are those of its own datetime arithmetic
+    import hightime as _ht
+    inst = _dt.datetime(2025, 3, 29, 23, 0, tzinfo=_dt.timezone.utc)
+    zones = [("UTC", _dt.timezone.utc), ("+05:30", _dt.timezone(_dt.timedelta(hours=5, minutes=30))), ("varying", zone), ("Zulu", _dt.timezone(_dt.timedelta(0), "Zulu")),
+             ("-08:00", _dt.timezone(_dt.timedelta(hours=-8)))]
+    for mk_name, mk_ts, mk_td in (("datetime", lambda d: d, lambda **k: _dt.timedelta(**k)),
+                                  ("hightime", lambda d: _ht.datetime(d.year, d.month, d.day, d.hour, d.minute, d.second, tzinfo=d.tzinfo), lambda **k: _ht.timedelta(**k))):
+        for order in (zones, list(reversed(zones)), zones[2:] + zones[:2]):
+            for off in (mk_td(days=1), mk_td(hours=3), None):
+                for zname, z in order:
+                    ts = mk_ts(inst.astimezone(z))
+                    timing = Timing.create_with_regular_interval(mk_td(hours=2), ts, off)
+                    st = ts if off is None else ts + off
+                    want = [st + k * mk_td(hours=2) for k in range(4)]
+                    o1, o2 = outcome(lambda: timing.start_time), outcome(lambda: list(timing.get_timestamps(0, 4)))
+                    ctx.case(("same-instant-zones", mk_name, zname, str(off)))
+
+                    def same(a_, b_):
+                        return a_ == b_ and a_.tzinfo is b_.tzinfo and a_.utcoffset() == b_.utcoffset() and (a_.hour, a_.minute) == (b_.hour, b_.minute)
+                    if o1[0] != "ok" or not same(o1[1], st) or o2[0] != "ok" or len(o2[1]) != 4 or not all(same(x, y) for x, y in zip(o2[1], want)):
+                        ctx.violation(what="a Timing's start time / timestamps are not those of its own timestamp (equal instants in different zones queried one after the other)",
+                                      family=mk_name, zone=zname, offset=str(off), order=[n_ for n_, _ in order],
+                                      observed=(show(o1)[:80] if o1[0] != "ok" else f"start_time {o1[1]} ({o1[1].tzinfo}); " + (show(o2)[:80] if o2[0] != "ok" else str([str(x) for x in o2[1]]))[:200]),
+                                      required=f"start_time {st} ({st.tzinfo}); {[str(x) for x in want]}"[:300])
     # REGULAR / NONE without timestamp information
     for fam in ("dt", "ht", "bt"):
         for mode in ("NONE", "REGULAR"):
